@@ -2,6 +2,7 @@ import A2Verif.Model.Hex
 import A2Verif.Model.Dasm
 import A2Verif.Model.Asm
 import A2Verif.Model.DasmLabel
+import A2Verif.Model.DasmRange
 /-!
 driver family `c15`: answers for the harness family `c15`.
 
@@ -15,6 +16,12 @@ driver family `c15`: answers for the harness family `c15`.
                                                       translator found in the source): `label|text` per line, `;` separated
   c15 lasm <lab> <key> <ver> <proc> <mx> <brk> <org-hex> <bytes-hex>   bytes the assembler model emits for the whole labelled
                                                       listing (`ver` ∈ m8 m16 m16+ m32), or `E`
+
+  every op above takes an optional last token `+<hex>`: the image bytes that FOLLOW the disassembled range (the
+  range is then a proper sub-range of the image; what the look-ahead of a text run may see of them is
+  `Gen.DasmLabels.lookBound`)
+  c15 brange <dos|prodos> <image-length> <start-word-hex> <length-word-hex>   `beg,end` (hex) selected by LastBloadDos33 /
+                                                      LastBloadProDos, or `E`
 
 `proc` ∈ 6502 65c02 65802 65816, `mx` two binary digits, `brk` 0/1.  The rendering below is the text layer
 of `format_lines` reduced to `MNEMONIC+suffix OPERAND` (single blank), which is how the harness
@@ -112,53 +119,66 @@ def primaryVer : Proc → Ver
 def join (sep : String) (xs : List String) : String :=
   if xs.isEmpty then "-" else sep.intercalate xs
 
-def handle (toks : List String) : String :=
+/-- a trailing token `+<hex>` gives the image bytes that follow the disassembled range -/
+def splitAfter (toks : List String) : List String × Option (List Nat) :=
+  match toks.getLast? with
+  | some t => if t.startsWith "+" then (toks.dropLast, A2Verif.Hex.ofHex (t.drop 1).toString) else (toks, some [])
+  | none => (toks, some [])
+
+def parseCfg (p mx brk org hex : String) : Option (Cfg × Nat × List Nat) :=
+  match parseProc p, mx.toList, brk.toList, parseHexNat org, A2Verif.Hex.ofHex hex with
+  | some proc, [mc, xc], [bc], some o, some bytes =>
+    match parseBit mc, parseBit xc, parseBit bc with
+    | some m8, some x8, some b => some (⟨proc, m8, x8, b⟩, o, bytes)
+    | _, _, _ => none
+  | _, _, _, _, _ => none
+
+def handle (toks0 : List String) : String :=
+  match splitAfter toks0 with
+  | (_, none) => "bad-request"
+  | (toks, some after) =>
   match toks with
+  | ["brange", which, len, sw, lw] =>
+    -- `dos33_bload_range` / `prodos_bload_range` on a zeroed image of `len` bytes with the two words poked in
+    match len.toNat?, parseHexNat sw, parseHexNat lw with
+    | some n, some s, some l =>
+      let (sa, la) := if which == "dos" then (0xaa72, 0xaa60) else (0xbeb9, 0xbec8)
+      let img := ((((List.replicate n 0).set sa (s % 256)).set (sa + 1) (s / 256)).set la (l % 256)).set (la + 1) (l / 256)
+      match bloadRange img sa la with
+      | some (b, e) => (String.ofList (Nat.toDigits 16 b)).toUpper ++ "," ++ (String.ofList (Nat.toDigits 16 e)).toUpper
+      | none => "E"
+    | _, _, _ => "bad-request"
   | [op, p, mx, brk, org, hex] =>
-    match parseProc p, mx.toList, brk.toList, parseHexNat org, A2Verif.Hex.ofHex hex with
-    | some proc, [mc, xc], [bc], some o, some bytes =>
-      match parseBit mc, parseBit xc, parseBit bc with
-      | some m8, some x8, some b =>
-        let cfg : Cfg := ⟨proc, m8, x8, b⟩
-        let lines := dasm Quirks.fixed cfg o bytes
-        if op == "dasm" then join ";" (lines.flatMap renderLine)
-        else if op == "spans" then join "," (lines.map (fun l => (String.ofList (Nat.toDigits 16 l.addr)).toUpper))
-        else if op == "rt" then
-          let ac : ACfg := ⟨proc, primaryVer proc, m8, x8⟩
-          join "," (lines.map (fun l => match lineBytes Quirks.fixed ac l.addr l with
-            | .ok b => A2Verif.Hex.toHex b
-            | .error _ =>
-              match l with
-              | .hex _ reps body => "E:" ++ A2Verif.Hex.toHex (lupBytes reps body)
-              | _ => "E"))
-        else "bad-request"
-      | _, _, _ => "bad-request"
-    | _, _, _, _, _ => "bad-request"
-  | [op, lab, key, p, mx, brk, org, hex] =>
-    match parseLab lab, parseKey key, parseProc p, mx.toList, brk.toList, parseHexNat org, A2Verif.Hex.ofHex hex with
-    | some lab, some k, some proc, [mc, xc], [bc], some o, some bytes =>
-      match parseBit mc, parseBit xc, parseBit bc with
-      | some m8, some x8, some b =>
-        if op == "ldasm" then
-          let lines := dasm Quirks.fixed ⟨proc, m8, x8, b⟩ o bytes
-          let labels := labelSet lab lines
-          join ";" (lines.flatMap (renderLabelled k labels (pcBytes lines)))
-        else "bad-request"
-      | _, _, _ => "bad-request"
-    | _, _, _, _, _, _, _ => "bad-request"
-  | [op, lab, key, ver, p, mx, brk, org, hex] =>
-    match parseLab lab, parseKey key, parseVer ver, parseProc p, mx.toList, brk.toList, parseHexNat org, A2Verif.Hex.ofHex hex with
-    | some lab, some k, some ver, some proc, [mc, xc], [bc], some o, some bytes =>
-      match parseBit mc, parseBit xc, parseBit bc with
-      | some m8, some x8, some b =>
-        if op == "lasm" then
-          let lines := dasm Quirks.fixed ⟨proc, m8, x8, b⟩ o bytes
-          match asmAll Quirks.fixed ⟨proc, ver, m8, x8⟩ o (labelled k lab lines) with
-          | .ok out => if out.isEmpty then "-" else A2Verif.Hex.toHex out
-          | .error _ => "E"
-        else "bad-request"
-      | _, _, _ => "bad-request"
-    | _, _, _, _, _, _, _, _ => "bad-request"
+    match parseCfg p mx brk org hex with
+    | some (cfg, o, bytes) =>
+      let lines := dasmR Quirks.fixed cfg lookBound o bytes after
+      if op == "dasm" then join ";" (lines.flatMap renderLine)
+      else if op == "spans" then join "," (lines.map (fun l => (String.ofList (Nat.toDigits 16 l.addr)).toUpper))
+      else if op == "rt" then
+        let ac : ACfg := ⟨cfg.proc, primaryVer cfg.proc, cfg.m8, cfg.x8⟩
+        join "," (lines.map (fun l => match lineBytes Quirks.fixed ac l.addr l with
+          | .ok b => A2Verif.Hex.toHex b
+          | .error _ =>
+            match l with
+            | .hex _ reps body => "E:" ++ A2Verif.Hex.toHex (lupBytes reps body)
+            | _ => "E"))
+      else "bad-request"
+    | none => "bad-request"
+  | ["ldasm", lab, key, p, mx, brk, org, hex] =>
+    match parseLab lab, parseKey key, parseCfg p mx brk org hex with
+    | some lab, some k, some (cfg, o, bytes) =>
+      let lines := dasmR Quirks.fixed cfg lookBound o bytes after
+      let labels := labelSet lab lines
+      join ";" (lines.flatMap (renderLabelled k labels (pcBytes lines)))
+    | _, _, _ => "bad-request"
+  | ["lasm", lab, key, ver, p, mx, brk, org, hex] =>
+    match parseLab lab, parseKey key, parseVer ver, parseCfg p mx brk org hex with
+    | some lab, some k, some ver, some (cfg, o, bytes) =>
+      let lines := dasmR Quirks.fixed cfg lookBound o bytes after
+      match asmAll Quirks.fixed ⟨cfg.proc, ver, cfg.m8, cfg.x8⟩ o (labelled k lab lines) with
+      | .ok out => if out.isEmpty then "-" else A2Verif.Hex.toHex out
+      | .error _ => "E"
+    | _, _, _, _ => "bad-request"
   | _ => "bad-request"
 
 end A2Verif.Drv.C15
